@@ -6,7 +6,9 @@ OBLS = [Obl('C15.char_class_table.sound', ['C15', 'C01'], 'P#', 'tab/char_class_
 INC15 = ['spec/urlspec.h', 'spec/scan.h', 'spec/ref_pct.h']
 for nm, roots, d, bn, gl in (('userinfo', ['canonicalize_username', 'canonicalize_password'], 'CANON_USERINFO=1', 4, [('USERINFO_PERCENT_ENCODE', 'const unsigned char[32]')]),
                              ('port', ['canonicalize_port'], 'CANON_PORT=1', 7, []), ('protocol', ['canonicalize_protocol'], 'CANON_PROTOCOL=1', 6, []),
-                             ('ipv6_hostname', ['canonicalize_ipv6_hostname'], 'CANON_IPV6=1', 6, [])):
+                             ('ipv6_hostname', ['canonicalize_ipv6_hostname'], 'CANON_IPV6=1', 6, []),
+                             ('search', ['canonicalize_search'], 'CANON_SEARCH=1', 4, [('QUERY_PERCENT_ENCODE', 'const unsigned char[32]')]),
+                             ('hash', ['canonicalize_hash'], 'CANON_HASH=1', 4, [('FRAGMENT_PERCENT_ENCODE', 'const unsigned char[32]')])):
     OBLS.append(Obl('C15.canonicalize_%s.standard/b%d' % (nm, bn), ['C15', 'C02'], 'B(%d)' % bn, 'c15/canon.c', roots=roots, bufn=bn, unwind=3 * bn + 4,
                     defines=['STR_CAP=%d' % (3 * bn + 1), 'BUF_START=1', d], includes=INC15, globals=gl, solver='cadical', timeout=1200, bound='input <= %d bytes' % bn,
                     note='URLPattern canonicaliser == the URLPattern Standard\'s definition (URL parser with state override / URL encode set), incl. when it fails'))
